@@ -9,7 +9,7 @@ Line-protocol handlers for property C17.
 * `c17.hyp <rule-name-hex> <props> <block>` → `(flag*)`: the defect regions the program touches (empty = inside H₁₇)
 * `c17.whole <rule-name-hex> <props> <block>` → `(lit noref same)`: the three hypotheses of `inject_refines_whole`
   (literal value; the program never declares/assigns the name; rule run = identifier-only run); `not-applicable` for the other rules
-* `c17.wholeassert <block>` → `(noref same)`: the two hypotheses of `assert_refines_whole`
+* `c17.wholeassert <block>` → `(noref same sameU)`: the hypotheses of `assert_refines_whole` (stage 3) and `assert_refines_whole_u` (HeapU)
 * `c17.rules` → the modelled rule names
 -/
 namespace DarkluaModel.C17
@@ -61,7 +61,8 @@ def handle (op : String) (args : List String) : String :=
     match Block.ofSexp? block with
     | some b =>
       let (a, c) := WholeAssert.inRegion b
-      (Sexp.list [Sexp.ofBool a, Sexp.ofBool c]).toString
+      let (_, cu) := WholeAssertU.inRegion b
+      (Sexp.list [Sexp.ofBool a, Sexp.ofBool c, Sexp.ofBool cu]).toString
     | none => "bad-request"
   | "rules", _ => "remove_assertions remove_debug_profiling inject_global_value"
   | _, _ => "unknown-op " ++ op
